@@ -31,10 +31,15 @@ PUMPS = [
     ("", "| a ", "|\n|---|\n"), ("", "a. B", ""), ("", "\"a\" ", ""), ("", "... ", ""), ("", "[^a] ", "\n\n[^a]: x\n"), ("", "{{ a }}{{ /a }}", ""),
     ("", "a\n", ""), ("", "\n", ""), ("```\n", "```` \n", "```\n"), ("", "![", ""), ("", "<http://a.b> ", ""), ("", "www.a.b/c ", ""), ("", "~a~ ", ""),
     ("---\n", "a: b\n", "---\nbody\n"), ("", "\t", "x"), ("", "&amp;", ""),
+
     # around the atomic-construct patterns: unmatched openers followed by escapes / nested openers
     ("[", "\\", ""), ("[a", "\\]", ""), ("[", "\\[", "]"), ("`", "\\`", ""), ("<a ", "\\\"", ">"), ("{% ", "\\%", ""), ("[a](", "\\)", ""),
     ("[a](", "(", ""), ("![", "\\", "]"), ("[", "]", "("), ("<!-- ", "-", ""), ("{{ ", "}", ""), ("x ", "<", ""), ("[a](u \"", "\\\"", ""),
 ]
+
+# many blocks: per-block passes (typography, cleanups, transforms, rendering) must not walk the whole document once per block
+BLOCK_UNITS = ["a \"b\" c.\n\n", "# **h**\n\ntext...\n\n", "- it's\n\n", "| a | \"b\" |\n|---|---|\n\npara\n\n", "> q \"x\"\n\n",
+               "para one.\n\n```\ncode\n```\n\n", "[a]: http://x.y\n\nsee [a]...\n\n"]
 
 FN_LABELS = ["1", "a.b", "a b", "n1", "note-1", "a*b", "x(y)", "é", "+", "a.b.c.d", "a?", "a|b", "^", "a$"]
 FN_SEPS = ["\t", " \t", "  \t", "   \t", "\t\t", " ", "   ", "\t ", ""]
@@ -168,6 +173,74 @@ def monitor(ctx: Ctx, n_soup: int, n_docs: int, limit: float) -> None:
     ctx.extra["worst_cpu_seconds_single_call"] = round(worst, 3)
 
 
+def _nest(lines: list[str], kind: str) -> list[str]:
+    if kind == "quote":
+        return [("> " + l) if l else ">" for l in lines]
+    if kind == "alert":
+        return ["> [!NOTE]"] + [("> " + l) if l else ">" for l in lines]
+    marker = {"bullet": "- ", "ordered": "1. ", "ordered10": "10. ", "plus": "+ "}[kind]
+    pad = " " * len(marker)
+    return [marker + lines[0]] + [(pad + l) if l else "" for l in lines[1:]]
+
+
+def code_in_containers(ctx: Ctx, n: int) -> None:
+    """CODE_BLANK in every nesting: code blocks (fenced and indented) with interior blank lines inside 1–3 nested containers
+    (quote, alert, bullet / ordered / wide-marker list items), optionally after a paragraph in the same container."""
+    from flowmark import reformat_text
+    rng = ctx.rng
+    kinds = ["quote", "alert", "bullet", "ordered", "ordered10", "plus"]
+    chains = [[a] for a in kinds] + [[a, b] for a in kinds for b in kinds if not (a == "alert" and b == "alert")]
+    extra = [[a, b, c] for a in kinds for b in kinds for c in kinds]
+    rng.shuffle(extra)
+    for chain in chains + extra[:n]:
+        fenced = rng.random() < 0.7
+        body = ["code line", "", "  indented code", "", "", "last"] if rng.random() < 0.5 else ["x = 1", "", "y = 2"]
+        block = (["```py", *body, "```"] if fenced else ["    " + b if b else "" for b in body])
+        lines = (["lead paragraph", ""] if (rng.random() < 0.5 or not fenced) else []) + block
+        for kind in reversed(chain):          # innermost first
+            lines = _nest(lines, kind)
+        text = "\n".join(lines) + "\n"
+        for o in (dict(width=88), dict(width=30, semantic=True, list_spacing="loose"), dict(width=0, list_spacing="tight")):
+            out, secs, err = call(lambda: reformat_text(text, **o), 5)
+            ctx.count(["code-in-containers", chain, fenced, str(o)], nontrivial=True)
+            ctx.bump("code-in-containers")
+            well_formed(ctx, text, dict(plaintext=False, **o), out, err, secs, 5)
+            if out:
+                code_blank_check(ctx, text, out)
+
+
+def block_growth(ctx: Ctx) -> None:
+    """time in the NUMBER OF BLOCKS: 4× the blocks may cost about 4× the CPU time; 9× and more than half a second is reported.
+    (CPU time of this process, best of two runs, so that machine load does not matter.)"""
+    from flowmark import reformat_text
+    n0, n1 = (256, 1024) if ctx.tier == "quick" else (512, 4096)
+    res = []
+    for unit in BLOCK_UNITS:
+        for o in (dict(width=88, semantic=True, cleanups=True, smartquotes=True, ellipses=True), dict(width=40, list_spacing="loose")):
+            ts = []
+            for n in (n0, n1):
+                best = None
+                for _ in range(2):
+                    out, secs, err = call(lambda: reformat_text(unit * n, **o), 60)
+                    if err is not None:
+                        best = None
+                        break
+                    best = secs if best is None else min(best, secs)
+                ts.append(best)
+            ctx.count(["block-growth", unit, str(o)], nontrivial=True)
+            ctx.bump("block-growth")
+            case = {"unit": unit, "blocks": [n0, n1], "opts": {k: str(v) for k, v in o.items()}}
+            if None in ts:
+                ctx.fail("GROWTH: a document of many small blocks raised or did not finish within 60 s", case, None)
+                continue
+            ratio = ts[1] / max(ts[0], 1e-3)
+            res.append({"unit": unit, "seconds": [round(t, 3) for t in ts], "ratio": round(ratio, 1)})
+            if ts[1] > 0.5 and ratio > 2.25 * (n1 / n0):
+                ctx.fail(f"GROWTH: {n1 // n0}× the blocks cost {ratio:.1f}× the time (running time does not grow gently with the number of blocks)",
+                         case, {"cpu_seconds": ts})
+    ctx.extra["block_growth"] = res
+
+
 def pumps(ctx: Ctx, sizes, top_limit: float, max_exp: float) -> None:
     from flowmark import reformat_text
     growth = []
@@ -221,11 +294,14 @@ def run(ctx: Ctx) -> None:
     if driver_ok:
         ctx.guard("tie render", rendertie.tie_render, ctx.scale(150, 2000))
     monitor(ctx, ctx.scale(2500, 100000), ctx.scale(250, 5000), limit=ctx.scale(5, 10))
+    code_in_containers(ctx, ctx.scale(40, 216))
+    block_growth(ctx)
     pumps(ctx, [2 ** k for k in (range(4, 10, 2) if ctx.tier == "quick" else range(4, 15, 2))], top_limit=ctx.scale(20, 60), max_exp=2.2)
     ctx.assume("exceptions inside Marko, catastrophic regex backtracking and wall-clock growth cannot be exhibited by the Lean model: "
                "they are monitored under a CPU watchdog, not proved")
     ctx.rule("malformed stream: random sequences over a punctuation/control/delimiter soup (length ≤200) × random option values "
-             "(any width ∈ ℤ, all switches, plaintext); structured documents (dirty mode, CRLF variants); pumped families unit^n")
+             "(any width ∈ ℤ, all switches, plaintext); structured documents (dirty mode, CRLF variants); pumped families unit^n; code blocks with blank "
+             "lines in 1–3 nested containers; documents of 256 vs 1024 (thorough 512 vs 4096) small blocks for growth in the number of blocks")
 
 
 def search(ctx: Ctx) -> None:
